@@ -291,7 +291,8 @@ def C03(tier):
              gen=dict(count=(3000, 18000), params={"oor_den": "6", "bigstride": "0"}), params={"frame": "1"}),
         dict(name="sort_frame_model", family="sort", trace="Trace_Sort", trace_constants=FIX, profile="dev",
              cases_from=["MC_Select_emit", "MC_Partition_emit"], params={"frame": "1", "strides": "2/-3"}),
-        dict(name="quantile_frame", family="quant", trace="Trace_Quant", profile="dev", gen=dict(count=(2500, 25000))),
+        # badq: one call in six carries a request outside [0, 1] (rejected calls are framed like any other)
+        dict(name="quantile_frame", family="quant", trace="Trace_Quant", profile="dev", gen=dict(count=(2500, 25000), params={"badq": "1"})),
         dict(name="nan_frame", family="nan", trace="Trace_Nan", trace_constants=FIX3, profile="dev", gen=dict(count=(2500, 25000))),
         dict(name="qskip_frame", family="minmax", trace="Trace_MinMax", profile="dev", gen=dict(count=(2000, 20000), params={"kinds": "qskip"})),
         # an element whose comparisons panic: the lane after the unwinding still holds every element exactly once
